@@ -136,13 +136,20 @@ func (m SnapshotDigestMonitor) Post(e *Explorer, before, w *World, pre interface
 func checkC15(rc *RunCtx) {
 	model := LoadSolModel(RepoDir() + "/evm/contracts")
 	rc.Sample(map[string]interface{}{"contract_model": model.String()})
-	// stateful part: the digests the chain itself produces along the shared skeletons (+ deviations)
-	if rc.Replay == nil || isSkeleton(rc.Replay.Scenario) {
+	// stateful part: the digests the chain itself produces along the shared skeletons (+ deviations); it runs after the
+	// enumerations because it is the part a deadline may cut short
+	stateful := func() {
 		runSkeletons(rc, []Monitor{SnapshotDigestMonitor{model: model}}, kOf(rc), "round", "bridge", "deposit-closing", "dispute-sibling")
-		if rc.Replay != nil {
-			return
-		}
 	}
+	if rc.Replay != nil && isSkeleton(rc.Replay.Scenario) {
+		stateful()
+		return
+	}
+	defer func() {
+		if rc.Replay == nil {
+			stateful()
+		}
+	}()
 	w := NewWorld(Config{})
 	StdSetup(w, false)
 	bk := w.App.BridgeKeeper
@@ -163,7 +170,7 @@ func checkC15(rc *RunCtx) {
 
 	// --- validator set hash + threshold ---
 	addrs := [][]byte{make([]byte, 20), bytes.Repeat([]byte{0xff}, 20), {0x01, 0x23, 0x45, 0x67, 0x89, 0xab, 0xcd, 0xef, 0x10, 0x32, 0x54, 0x76, 0x98, 0xba, 0xdc, 0xfe, 0x00, 0xff, 0x80, 0x7f}}
-	powers := []uint64{0, 1, 1<<63 - 1, 1<<64 - 1}
+	powers := []uint64{0, 1, 1_000_000_000_000_000_000, 1<<63 - 1, 1<<64 - 1} // 10^18: beyond 18-decimal fixed point, total still below 2^62
 	var members []*bridgetypes.BridgeValidator
 	for _, a := range addrs {
 		for _, p := range powers {
